@@ -138,6 +138,9 @@ func (fx *Fx) lvalue(st *State, e ast.Expr) *Loc {
 		}
 		if fx.c.boxedVars[v] {
 			fx.ensureVar(st, v)
+			if s, named, isPtr := structOf(v.Type()); s != nil && !isPtr && !opaqueNamed(named) {
+				return &Loc{kind: locStructAt, ref: st.vars[v], T: v.Type()}
+			}
 			return &Loc{kind: locHeap, key: "P:" + typeKey(v.Type()), srt: fx.c.sortOf(v.Type()), ref: st.vars[v], T: v.Type()}
 		}
 		fx.ensureVar(st, v)
@@ -184,6 +187,8 @@ func (fx *Fx) lvalue(st *State, e ast.Expr) *Loc {
 		switch u := xt.Underlying().(type) {
 		case *types.Slice:
 			s := fx.eval(st, e.X)
+			s.T = fx.c.define("s", "Slice", s.T)
+			fx.wfSlice(st, s.T)
 			i := fx.eval(st, e.Index)
 			fx.boundsCheck(st, i.T, "(s_len "+s.T+")", e)
 			return &Loc{kind: locElem, key: "E:" + typeKey(u.Elem()), srt: fx.c.sortOf(u.Elem()), ref: "(s_base " + s.T + ")", idx: fmt.Sprintf("(+ (s_off %s) %s)", s.T, i.T), T: u.Elem()}
@@ -255,6 +260,9 @@ func (fx *Fx) ensureVar(st *State, v types.Object) {
 		st.assume(fmt.Sprintf("(and (> %s 0) (<= %s %s))", name, name, st.alloc))
 	} else if ra := fx.c.rangeAssume(name, v.Type()); ra != "" {
 		st.assume(ra)
+		if rf := fx.c.refTypeFact(name, v.Type()); rf != "" {
+			st.assume(rf)
+		}
 	}
 	st.vars[v] = name
 	fx.c.inputs = append(fx.c.inputs, ModelVar{Name: v.Name(), Term: name})
@@ -271,6 +279,7 @@ func (fx *Fx) rootRead(st *State, l *Loc) Val {
 	case locVar:
 		return Val{T: st.vars[l.obj], S: c.sortOf(l.T), GT: l.T}
 	case locHeap, locGlobal:
+		fx.guardCheck(st, l, false)
 		h := st.heap(l.key, "(Array Int "+l.srt+")")
 		v := Val{T: fmt.Sprintf("(select %s %s)", h, l.ref), S: l.srt, GT: l.T}
 		fx.loadKey = l.key
@@ -313,6 +322,9 @@ func (fx *Fx) loaded(st *State, v Val) Val {
 		t := fx.c.define("ld", v.S, v.T)
 		if ra := fx.c.rangeAssume(t, v.GT); ra != "" {
 			st.assume(ra)
+		}
+		if rf := fx.c.refTypeFact(t, v.GT); rf != "" {
+			st.assume(rf)
 		}
 		switch types.Unalias(v.GT).Underlying().(type) {
 		case *types.Pointer, *types.Chan, *types.Map:
@@ -397,6 +409,7 @@ func (fx *Fx) writeLoc(st *State, l *Loc, v Val) {
 	case locVar:
 		st.vars[l.obj] = c.define(l.obj.Name(), c.sortOf(l.T), v.T)
 	case locHeap, locGlobal:
+		fx.guardCheck(st, l, true)
 		hs := "(Array Int " + l.srt + ")"
 		h := st.heap(l.key, hs)
 		if len(l.path) == 0 && fx.w.nonNilField(l.key) {
@@ -490,4 +503,33 @@ func (fx *Fx) pureReadLoc(st *State, l *Loc) Val {
 		v = Val{T: fmt.Sprintf("(%s__%s %s)", p.dt, p.field, v.T), S: c.sortOf(p.T), GT: p.T}
 	}
 	return v
+}
+
+// guardCheck: access discipline for fields declared `guarded_by <lock field>`: the lock of the same object is
+// held (read: any mode, write: write mode) unless the object was allocated by this activation (not yet published).
+func (fx *Fx) guardCheck(st *State, l *Loc, write bool) {
+	lk := fx.w.guardOf(l.key)
+	if lk == "" || fx.noGuard {
+		return
+	}
+	name := "addr_" + sanitize(lk)
+	var mu string
+	if strings.HasPrefix(lk, "GV:") {
+		fx.c.declareConst(name, "Int")
+		mu = name
+	} else {
+		fx.c.declareFun(name, []string{"Int"}, "Int")
+		mu = fmt.Sprintf("(%s %s)", name, l.ref)
+	}
+	held := fmt.Sprintf("(select %s %s)", st.heap("LK", "(Array Int Int)"), mu)
+	cond, what := fmt.Sprintf("(>= %s 1)", held), "read"
+	if write {
+		cond, what = fmt.Sprintf("(= %s 2)", held), "write"
+	}
+	fresh := "false"
+	if fx.entry != nil {
+		fresh = fmt.Sprintf("(> %s %s)", l.ref, fx.entry.alloc)
+	}
+	phi := fmt.Sprintf("(or %s %s)", fresh, cond)
+	fx.c.oblige(st, "guarded-by", what+"("+strings.TrimPrefix(l.key, "F:")+")", phi, what+" of "+strings.TrimPrefix(l.key, "F:")+" with "+strings.TrimPrefix(lk, "F:")+" held", fx.w.pos(fx.curPos))
 }
